@@ -1,6 +1,6 @@
 import collections.abc
 from contextlib import suppress
-from dataclasses import dataclass, is_dataclass
+from dataclasses import dataclass, is_dataclass, replace
 from enum import Enum
 from functools import lru_cache
 from typing import (
@@ -90,6 +90,7 @@ from apischema.utils import (
     CollectionOrPredicate,
     Lazy,
     as_predicate,
+    context_setter,
     get_origin_or_type,
     get_origin_or_type2,
     identity,
@@ -368,7 +369,16 @@ class SerializationMethodVisitor(
         typed_dict = is_typed_dict(cls)
         for field in fields:
             field_alias = self.aliaser(field.alias) if not field.is_aggregate else None
-            field_method = self.visit_with_conv(field.type, field.serialization)
+            if field.flattened and self.pass_through_options.dataclasses:
+                # a flattened object is merged into the result: it has to be
+                # serialized, it cannot be passed through
+                with context_setter(self):
+                    self.pass_through_options = replace(
+                        self.pass_through_options, dataclasses=False
+                    )
+                    field_method = self.visit_with_conv(field.type, field.serialization)
+            else:
+                field_method = self.visit_with_conv(field.type, field.serialization)
             field_default = ... if field.required else field.get_default()
             base_field: BaseField
             if (
